@@ -149,15 +149,62 @@ M("e3-return-no-truncate", ["C02", "C05"], VM,
   [("C02", "C02-R6", "ReturnStatement:residues")])
 M("e3-return-keeps-handlers", ["C07"], VM,
   "        while self.exception_handlers and self.exception_handlers[-1][0] >= len(\n            self.call_stack\n        ):\n            self.exception_handlers.pop()\n", "",
-  [("C07", "C07-R2", "ReturnStatement:handler-stack")])
-M("e3-trystack-shared-again", ["C05", "C07"], CO,
-  "        self.loop_stack = []\n        self.try_stack = []\n        self.source_map = {}\n        self._in_function = True\n\n        # Collect all var declarations to know the full locals set\n        local_vars_set = set(self.locals)\n        if isinstance(node.body, BlockStatement):",
-  "        self.loop_stack = []\n        self.source_map = {}\n        self._in_function = True\n\n        # Collect all var declarations to know the full locals set\n        local_vars_set = set(self.locals)\n        if isinstance(node.body, BlockStatement):",
-  [("C05", "C05-R5", "_compile_arrow_function:state:try_stack"), ("C07", "C07-R4c", "_compile_arrow_function:state:try_stack")])
+  [("C07", "C07-R2", "vm:RETURN:handler-records")])
+M("e3-loopstack-shared-again", ["C05", "C07"], CO,
+  "        self.loop_stack = []\n        self._pending_labels = []\n        self.source_map = {}\n        self._in_function = True\n\n        # Collect all var declarations to know the full locals set\n        local_vars_set = set(self.locals)\n        if isinstance(node.body, BlockStatement):",
+  "        self._pending_labels = []\n        self.source_map = {}\n        self._in_function = True\n\n        # Collect all var declarations to know the full locals set\n        local_vars_set = set(self.locals)\n        if isinstance(node.body, BlockStatement):",
+  [("C05", "C05-R5", "_compile_arrow_function:state:loop_stack"), ("C07", "C07-R4c", "_compile_arrow_function:state:loop_stack")])
 M("e3-finalizer-popped-early", ["C07"], CO,
-  "            if node.finalizer:\n                self.try_stack.append(TryContext(finalizer=node.finalizer))\n\n            # Try block\n            try_start = self._emit_jump(OpCode.TRY_START)\n\n            self._compile_statement(node.block)",
-  "            # Try block\n            try_start = self._emit_jump(OpCode.TRY_START)\n\n            if node.finalizer:\n                self.try_stack.append(TryContext(finalizer=node.finalizer))\n                self.try_stack.pop()\n            self._compile_statement(node.block)\n            if node.finalizer:\n                self.try_stack.append(TryContext(finalizer=node.finalizer))",
-  [("C07", "C07-R4$", "abrupt-exits")])
+  "            self._patch_jump(try_start)\n            if node.handler:\n",
+  "            self._patch_jump(try_start)\n            if node.handler and node.finalizer:\n                self.loop_stack.pop()\n                self.loop_stack.append(try_ctx)\n            if node.handler:\n",
+  [], note="pop immediately followed by a push of the same context is behaviour-preserving: twin-like")
+M("e3-try-context-not-pushed", ["C07", "C02"], CO,
+  "            try_ctx = LoopContext(is_loop=False, is_try=True, finalizer=node.finalizer)\n            self.loop_stack.append(try_ctx)\n",
+  "            try_ctx = LoopContext(is_loop=False, is_try=True, finalizer=node.finalizer)\n            self.loop_stack.append(LoopContext(is_loop=False, is_try=True))\n",
+  [("C07", "C07-R(1b|4$)", "."), ("C02", "C02-R11", ".")])
+M("e3-handler-flag-not-set", ["C07", "C02"], CO,
+  "            try_start = self._emit_jump(OpCode.TRY_START)\n            try_ctx.handler_active = True\n",
+  "            try_start = self._emit_jump(OpCode.TRY_START)\n",
+  [("C07", "C07-R1b", "handler@node.block"), ("C02", "C02-R11", "handler@node.block")])
+M("e3-handler-flag-stays-set", ["C07"], CO,
+  "            self._emit(OpCode.TRY_END)\n            try_ctx.handler_active = False\n\n            # Jump past exception handler to normal finally",
+  "            self._emit(OpCode.TRY_END)\n\n            # Jump past exception handler to normal finally",
+  [("C07", "C07-R1b", "handler@node.handler.body")])
+M("e3-forin-declares-no-operand", ["C02", "C05"], CO,
+  "            loop_ctx = self._new_loop_context(stack_items=1)  # the iterator\n\n            # Compile object expression",
+  "            loop_ctx = self._new_loop_context()\n\n            # Compile object expression",
+  [("C02", "C02-R11", "operands@node.body"), ("C05", "C05-R3b", "operands@node.body")])
+M("e3-switch-declares-no-operand", ["C02", "C05"], CO,
+  "            loop_ctx = LoopContext(is_loop=False, stack_items=1)", "            loop_ctx = LoopContext(is_loop=False)",
+  [("C02", "C02-R11", "operands@"), ("C05", "C05-R3b", "operands@")])
+M("e3-leave-skips-try-end", ["C07", "C02"], CO,
+  "                if ctx.handler_active:\n                    self._emit(OpCode.TRY_END)\n", "",
+  [("C07", "C07-R2$", "handler-stack"), ("C02", "C02-R8", "handler-stack")])
+M("e3-leave-pops-before-finally", ["C07"], CO,
+  "            if ctx.is_try:\n                if ctx.handler_active:\n                    self._emit(OpCode.TRY_END)\n                if ctx.finalizer is not None:",
+  "            if ctx.is_try:\n                if ctx.finalizer is not None:",
+  [("C07", "C07-R2$", "handler-stack")])
+M("e3-leave-finalizer-keeps-own-context", ["C07"], CO,
+  "                    self.loop_stack = contexts[:i]\n", "                    self.loop_stack = contexts[: i + 1]\n",
+  [("C07", "C07-R4b", "finally-scope")])
+M("e3-leave-forgets-pending-return-value", ["C02", "C05"], CO,
+  "                    if pending_operands:\n                        self.loop_stack.append(\n                            LoopContext(\n                                is_loop=False,\n                                is_try=True,\n                                stack_items=pending_operands,\n                            )\n                        )\n", "",
+  [("C02", "C02-R6", "ReturnStatement:crossing"), ("C05", "C05-R3$", "ReturnStatement:crossing")])
+M("e3-leave-stops-at-first-loop", ["C07", "C05"], CO,
+  "            if ctx is target:\n                break\n            if ctx.is_try:",
+  "            if ctx is target or (target is not None and ctx.is_loop and not ctx.stack_items):\n                break\n            if ctx.is_try:",
+  [("C07", "C07-R4b", "finally-scope"), ("C05", "C05-R3$", "crossing")])
+M("e3-break-may-target-try", ["C05"], CO,
+  "            for loop_ctx in reversed(self.loop_stack):\n                if loop_ctx.is_try:\n                    continue\n                if target_label is not None:",
+  "            for loop_ctx in reversed(self.loop_stack):\n                if target_label is not None:",
+  [("C05", "C05-R3$", "target")])
+M("e3-continue-accepts-label-of-block", ["C05", "C02"], CO,
+  "                if not loop_ctx.is_loop:\n                    if target_label is not None and loop_ctx.has_label(target_label):\n                        raise self._syntax_error(\n                            f\"label '{target_label}' does not denote a loop\", node\n                        )\n                    continue\n",
+  "                if not loop_ctx.is_loop and not (\n                    target_label is not None and loop_ctx.has_label(target_label)\n                ):\n                    continue\n",
+  [("C05", "C05-R1c", "LabeledStatement:ctx:continue_jumps"), ("C02", "C02-R9", "LabeledStatement:ctx:continue_jumps")])
+T("t-leave-loop-forwards", ["C02", "C05", "C07"], CO,
+  "        contexts = self.loop_stack\n        for i in range(len(contexts) - 1, -1, -1):\n            ctx = contexts[i]\n",
+  "        contexts = self.loop_stack\n        for i in reversed(range(len(contexts))):\n            ctx = contexts[i]\n")
 M("e3-switch-default-early-jump", ["C05"], CO,
   "                else:\n                    default_index = i\n", "                else:\n                    default_index = i\n                    self._emit_jump(OpCode.JUMP)\n",
   [("C05", "C05-R1", "SwitchStatement")])
@@ -255,8 +302,8 @@ M("c07-wrong-constructor-name", ["C07"], VM,
   "self._handle_python_exception(\"ReferenceError\", str(e))", "self._handle_python_exception(\"TypeError\", str(e))",
   [("C07", "C07-R7", "JSReferenceError")])
 M("c07-sourcemap-dropped", ["C07"], CO,
-  "            cell_vars=self._cell_vars[:],\n            source_map=self.source_map,\n        )\n\n        # Pop outer scope if we pushed it\n        if old_in_function:\n            self._outer_locals.pop()\n\n        # Restore state\n        self.bytecode = old_bytecode\n        self.constants = old_constants\n        self.locals = old_locals\n        self.loop_stack = old_loop_stack\n        self.try_stack = old_try_stack\n        self.source_map = old_source_map\n        self._in_function = old_in_function\n        self._free_vars = old_free_vars\n        self._cell_vars = old_cell_vars\n\n        return func\n\n    # ---- Expressions ----",
-  "            cell_vars=self._cell_vars[:],\n        )\n\n        # Pop outer scope if we pushed it\n        if old_in_function:\n            self._outer_locals.pop()\n\n        # Restore state\n        self.bytecode = old_bytecode\n        self.constants = old_constants\n        self.locals = old_locals\n        self.loop_stack = old_loop_stack\n        self.try_stack = old_try_stack\n        self.source_map = old_source_map\n        self._in_function = old_in_function\n        self._free_vars = old_free_vars\n        self._cell_vars = old_cell_vars\n\n        return func\n\n    # ---- Expressions ----",
+  "            cell_vars=self._cell_vars[:],\n            source_map=self.source_map,\n        )\n\n        # Pop outer scope if we pushed it\n        if old_in_function:\n            self._outer_locals.pop()\n\n        # Restore state\n        self.bytecode = old_bytecode\n        self.constants = old_constants\n        self.locals = old_locals\n        self.loop_stack = old_loop_stack\n        self._pending_labels = old_pending_labels\n        self.source_map = old_source_map\n        self._in_function = old_in_function\n        self._free_vars = old_free_vars\n        self._cell_vars = old_cell_vars\n\n        return func\n\n    # ---- Expressions ----",
+  "            cell_vars=self._cell_vars[:],\n        )\n\n        # Pop outer scope if we pushed it\n        if old_in_function:\n            self._outer_locals.pop()\n\n        # Restore state\n        self.bytecode = old_bytecode\n        self.constants = old_constants\n        self.locals = old_locals\n        self.loop_stack = old_loop_stack\n        self._pending_labels = old_pending_labels\n        self.source_map = old_source_map\n        self._in_function = old_in_function\n        self._free_vars = old_free_vars\n        self._cell_vars = old_cell_vars\n\n        return func\n\n    # ---- Expressions ----",
   [("C07", "C07-R6", "_compile_function")])
 M("c08-in-own-only", ["C08"], VM,
   "            found = False\n            current = obj\n            while isinstance(current, JSObject):\n                if current.has(key_str):\n                    found = True\n                    break\n                current = current._prototype\n            self.stack.append(found)",
@@ -461,10 +508,10 @@ M("c17-cached-elements-alias", ["C17"], VM,
   "        elements = arr._elements\n\n        def forEach_fn(*args):\n",
   [("C17", "C17-R8", "field-alias")],
   more=[(VM, "            for i, elem in enumerate(arr._elements):\n                vm._call_callback(callback, [elem, i, arr])\n            return UNDEFINED\n", "            for i, elem in enumerate(elements):\n                vm._call_callback(callback, [elem, i, arr])\n            return UNDEFINED\n", 1)])
-M("c02-arrow-forgets-try-stack", ["C02", "C05", "C07"], CO,
-  "        self.loop_stack = old_loop_stack\n        self.try_stack = old_try_stack\n        self.source_map = old_source_map\n        self._in_function = old_in_function\n        self._free_vars = old_free_vars",
-  "        self.loop_stack = old_loop_stack\n        self.source_map = old_source_map\n        self._in_function = old_in_function\n        self._free_vars = old_free_vars",
-  [("C02", "C02-R10", "try_stack"), ("C05", "C05-R5", "try_stack"), ("C07", "C07-R4c", "try_stack")], count=2)
+M("c02-arrow-forgets-loop-stack", ["C02", "C05", "C07"], CO,
+  "        self.loop_stack = old_loop_stack\n        self._pending_labels = old_pending_labels\n        self.source_map = old_source_map\n        self._in_function = old_in_function\n        self._free_vars = old_free_vars",
+  "        self._pending_labels = old_pending_labels\n        self.source_map = old_source_map\n        self._in_function = old_in_function\n        self._free_vars = old_free_vars",
+  [("C02", "C02-R10", "loop_stack"), ("C05", "C05-R5", "loop_stack"), ("C07", "C07-R4c", "loop_stack")], count=2)
 
 # ------------------------------------------------------------------ seeded changes (independent authors)
 S("seed-C01-a", ["C01"], "seeded/C01-a/patch.diff", [("C01", "C01-R6", "_call_callback")])
